@@ -106,7 +106,7 @@ def match_terms(ctx, tr, args, ref_terms):
         for i, r in enumerate(ref_terms):
             if i in used or ref_coeff[i] != ca:
                 continue
-            Va = Va if Va is not None else tr(a.doit())
+            Va = Va if Va is not None else tr(a)
             if holds(ctx, Va, tr(r)):
                 hit = i
                 break
@@ -139,7 +139,11 @@ def reference_groups(reaction, builder, model, canonical, lineshape=None):
                 continue
             seen.add(ident)
             groups.setdefault(outer_key(t), []).append(kappa * coeff * ref)
+            META.setdefault(id(groups), {}).setdefault(outer_key(t), []).append(s_)
     return groups, info
+
+
+META: dict = {}  # id(groups) -> {outer key: [symmetrised transition of each reference term]}
 
 
 def run(config, tier, seed):
